@@ -1,5 +1,5 @@
-import JSL.Model.Step
-import JSL.Lib.Except
+import JSL.Inv.Init
+import JSL.Props.Example
 
 /-!
 # C08 — buffers never exceed capacity; ordered buffers release in discipline order
@@ -71,5 +71,32 @@ theorem c08_auto_start_discipline (b : BufState) (c : BufCfg) :
        | .flex => none) := by
   unfold nextJobFromBuffer
   cases c.type <;> rfl
+
+/-- **Capacity along all executions.**  In every state that occurs – after every individual
+transition of every step of every action sequence (offered or not) – no buffer holds more jobs
+than its configured capacity; machine internal buffers and AGV buffers (capacity 1 in compiled
+instances) therefore hold at most one job. -/
+theorem c08_capacity {orc : Oracle} {inst : Instance} {cfg : SMConfig} {s0 σ : State}
+    (h0 : initOKB inst s0 = true) (h : Occurs orc inst cfg s0 σ) :
+    ∀ b ∈ allBufStates σ, ∀ c ∈ allBufCfgs inst, c.id = b.id → (b.store.length : Int) ≤ c.cap := by
+  obtain ⟨w, hI0⟩ := initOKB_sound h0
+  have hI := occurs_struct w hI0 h
+  intro b hb c hc hid
+  have := hI.cap c hc
+  rwa [hid, storeAt_of_mem (hI.shape.bufNodup w) hb] at this
+
+/-- every buffer of every occurring state has a configuration (so `c08_capacity` is not vacuous) -/
+theorem c08_every_buffer_configured {orc : Oracle} {inst : Instance} {cfg : SMConfig} {s0 σ : State}
+    (h0 : initOKB inst s0 = true) (h : Occurs orc inst cfg s0 σ) :
+    ∀ b ∈ allBufStates σ, ∃ c ∈ allBufCfgs inst, c.id = b.id := by
+  obtain ⟨w, hI0⟩ := initOKB_sound h0
+  have hI := occurs_struct w hI0 h
+  intro b hb
+  have : b.id ∈ (allBufCfgs inst).map (·.id) := by
+    rw [← hI.shape.bufIds]; exact List.mem_map.mpr ⟨b, hb, rfl⟩
+  obtain ⟨c, hc, e⟩ := List.mem_map.mp this
+  exact ⟨c, hc, e⟩
+
+example : initOKB Ex.inst Ex.s0 = true := Ex.initOK
 
 end JSL
